@@ -580,4 +580,32 @@ func runC02(r *common.Rand, tier string, o *common.Out, replay string) {
 		}
 		c02All(o, next(), 0, chunks, stream, want)
 	}
+	// MaxMessageLength bounds the FRAME: a compressed payload that fits the bound on the wire and inflates beyond it
+	// decodes to all of its bytes (or to an error), never to a part of them
+	nz := 12
+	if tier == "thorough" {
+		nz = 200
+	}
+	for i := 0; i < nz; i++ {
+		k := 1 + r.Intn(3)
+		var stream []byte
+		var want []string
+		longest := 0
+		for j := 0; j < k; j++ {
+			h := genHeader(r)
+			ct := 1 + r.Intn(2)
+			setCompress(&h, ct)
+			payload := bytes.Repeat([]byte{byte(65 + r.Intn(20)), byte(r.Intn(3))}, 400+r.Intn(3000))
+			z, _ := protocol.Compressors[protocol.CompressType(ct)].Zip(payload)
+			fr := refcodec.Build(h, r.Bytes(r.Intn(6)), r.Bytes(r.Intn(4)), nil, append([]byte{}, z...))
+			f, _ := refcodec.Parse(fr)
+			stream = append(stream, fr...)
+			want = append(want, showRef(f, payload))
+			if len(fr) > longest {
+				longest = len(fr)
+			}
+		}
+		c02All(o, next(), longest+r.Intn(40), []int{1 + r.Intn(50)}, stream, want)
+		o.Count("compressed-payload-inflates-beyond-the-frame-bound")
+	}
 }
